@@ -188,6 +188,73 @@ pub fn c05(ctx: &mut Ctx) -> (u64, String) {
         }
     }
     ctx.part("fault-sequences", json!({"valid_frames": 256, "single_bit_corruptions": single, "double_bit_corruptions": double, "double_bit_corruptions_undetectable_by_parity": undetect}));
+
+    // (4) fault sequences on ONE decoder, bit-serial: every frame (valid or corrupted: all 2048) followed by
+    //     every valid frame; the second frame must still be accepted and yield its byte
+    let results = par_chunks(2048, |w1| {
+        let w1 = w1 as u16;
+        let mut n = 0u64;
+        let mut bads = vec![];
+        let first = catch_unwind(AssertUnwindSafe(|| {
+            let mut d = Ps2Decoder::new();
+            let mut last = Ok(None);
+            for k in 0..11 {
+                last = d.add_bit((w1 >> k) & 1 != 0);
+            }
+            (d, last)
+        }));
+        let Ok((d, last1)) = first else { return (1, vec![(w1, 0u16, "no panic".to_string(), "PANIC".to_string(), true)]) };
+        if last1 != r_frame(w1).map(Some) {
+            bads.push((w1, 0, fmt_optbyte(&r_frame(w1).map(Some)), fmt_optbyte(&last1), true));
+        }
+        for b in 0..=255u8 {
+            let w2 = encode(b);
+            let mut d2 = d.clone();
+            let r = catch_unwind(AssertUnwindSafe(|| {
+                let mut last = Ok(None);
+                for k in 0..11 {
+                    last = d2.add_bit((w2 >> k) & 1 != 0);
+                    if k < 10 && last != Ok(None) {
+                        break;
+                    }
+                }
+                last
+            }));
+            n += 1;
+            let got = match &r {
+                Ok(x) => fmt_optbyte(x),
+                Err(_) => "PANIC".to_string(),
+            };
+            if r.ok() != Some(Ok(Some(b))) && bads.len() < 4 {
+                bads.push((w1, w2, format!("Ok(Some(0x{:02X}))", b), got, false));
+            }
+        }
+        (n, bads)
+    });
+    let mut pairs = 0u64;
+    for (n, bads) in results {
+        pairs += n;
+        for (w1, w2, want, _got, first_only) in bads {
+            let mut ops = word_ops_bits(w1);
+            if !first_only {
+                ops.extend(word_ops_bits(w2));
+            }
+            let t = crate::replay::run_part("ps2", &ops);
+            // trim to the first position that deviates from 'incomplete' inside the last frame
+            let start = if first_only { 0 } else { 11 };
+            let upto = t.iter().enumerate().skip(start).find(|(i, s)| (*i < start + 10 && *s != "Ok(None)") || *i == start + 10).map(|(i, _)| i + 1).unwrap_or(ops.len());
+            ops.truncate(upto);
+            let obs = t[upto - 1].clone();
+            ctx.violation(
+                &format!("ps2/add_bit-sequence/0x{:03X}-then-0x{:03X}", w1, w2),
+                &format!("frame 0x{:03X} shifted in bit by bit{}: the last bit must give {} but gives {}", w1, if first_only { String::new() } else { format!(" followed by the valid frame 0x{:03X}", w2) }, want, obs),
+                Replay::one("ps2", ops, &want, Some(obs)),
+            );
+        }
+    }
+    ctx.evaluations += pairs;
+    nontrivial += 2048;
+    ctx.part("fault-sequences:any frame then a valid frame on one decoder (bit-serial)", json!({"first_frames": 2048, "second_frames": 256, "pairs": pairs}));
     ctx.sample(json!({"word": "0x402", "bits": "start=0 data=0x01 parity=0 stop=1", "reference": "Ok(0x01)"}));
     ctx.sample(json!({"word": "0x403", "reference": "Err(BadStartBit) (priority over the now-wrong parity)"}));
     ctx.sample(json!({"word": "0x002", "reference": "Err(BadStopBit)"}));
@@ -196,6 +263,54 @@ pub fn c05(ctx: &mut Ctx) -> (u64, String) {
         nontrivial,
         "all 2048 11-bit words via Ps2Decoder::add_word and Keyboard::add_word (both sets); all 256 encodings; every 1-bit (11) and 2-bit (55) corruption of every valid frame, whole-word and bit-serial; non-trivial = the 256 round-trips + 16896 distinct corruption cases".into(),
     )
+}
+
+pub type TB = (Vec<bool>, String, String);
+/// `forced`: bits the first levels must take (the chunk prefix); guard: per-call catch_unwind
+fn bit_rec(d: &Ps2Decoder, word: u16, cnt: usize, pos: usize, total: usize, forced: &[bool], guard: bool, path: &mut Vec<bool>, n: &mut u64, bads: &mut Vec<TB>) {
+    let choices: &[bool] = if pos < forced.len() { &forced[pos..pos + 1] } else { &[false, true] };
+    for &b in choices {
+        let mut d2 = d.clone();
+        let r: Result<Result<Option<u8>, Error>, ()> = if guard { catch_unwind(AssertUnwindSafe(|| d2.add_bit(b))).map_err(|_| ()) } else { Ok(d2.add_bit(b)) };
+        *n += 1;
+        let w = word | ((b as u16) << cnt);
+        let (want, nw, nc) = if cnt + 1 < 11 { (Ok(None), w, cnt + 1) } else { (r_frame(w).map(Some), 0, 0) };
+        if r != Ok(want) && bads.len() < 32 {
+            let mut p = path.clone();
+            p.push(b);
+            bads.push((p, fmt_optbyte(&want), match &r { Ok(x) => fmt_optbyte(x), Err(_) => "PANIC".into() }));
+        }
+        if r.is_err() {
+            continue;
+        }
+        if pos + 1 < total {
+            path.push(b);
+            bit_rec(&d2, nw, nc, pos + 1, total, forced, guard, path, n, bads);
+            path.pop();
+        }
+    }
+}
+
+/// every bit stream of `total_bits` bits against R-FRAME, outputs only; 256 chunks over the first 8 bits.
+/// Fast path unguarded; a chunk that panics is redone with every call guarded (or always, if `always_guard`).
+pub fn bit_tree(total_bits: usize, always_guard: bool) -> Vec<((u64, Vec<TB>), bool)> {
+    par_chunks(256, |chunk| {
+        let forced: Vec<bool> = (0..8).map(|i| (chunk >> i) & 1 != 0).collect();
+        let run = |guard: bool| {
+            let mut n = 0u64;
+            let mut bads: Vec<TB> = vec![];
+            let mut path = vec![];
+            bit_rec(&Ps2Decoder::new(), 0, 0, 0, total_bits, &forced, guard, &mut path, &mut n, &mut bads);
+            (n, bads)
+        };
+        if always_guard {
+            return (run(true), true);
+        }
+        match catch_unwind(AssertUnwindSafe(|| run(false))) {
+            Ok(r) => (r, false),
+            Err(_) => (run(true), true),
+        }
+    })
 }
 
 // ---- C06 --------------------------------------------------------------------------------------
@@ -360,45 +475,7 @@ pub fn c06(ctx: &mut Ctx) -> (u64, String) {
     // (B) hook-free: all bit streams of 2 (quick) / 3 (thorough) frames, outputs only
     let frames = if ctx.thorough() { 3 } else { 2 };
     let total_bits = frames * 11;
-    type TB = (Vec<bool>, String, String);
-    /// `forced`: bits this level must take (the chunk prefix); guard: per-call catch_unwind
-    fn rec(d: &Ps2Decoder, word: u16, cnt: usize, pos: usize, total: usize, forced: &[bool], guard: bool, path: &mut Vec<bool>, n: &mut u64, bads: &mut Vec<TB>) {
-        let choices: &[bool] = if pos < forced.len() { &forced[pos..pos + 1] } else { &[false, true] };
-        for &b in choices {
-            let mut d2 = d.clone();
-            let r: Result<Result<Option<u8>, Error>, ()> = if guard { catch_unwind(AssertUnwindSafe(|| d2.add_bit(b))).map_err(|_| ()) } else { Ok(d2.add_bit(b)) };
-            *n += 1;
-            let w = word | ((b as u16) << cnt);
-            let (want, nw, nc) = if cnt + 1 < 11 { (Ok(None), w, cnt + 1) } else { (r_frame(w).map(Some), 0, 0) };
-            if r != Ok(want) && bads.len() < 32 {
-                let mut p = path.clone();
-                p.push(b);
-                bads.push((p, fmt_optbyte(&want), match &r { Ok(x) => fmt_optbyte(x), Err(_) => "PANIC".into() }));
-            }
-            if r.is_err() {
-                continue;
-            }
-            if pos + 1 < total {
-                path.push(b);
-                rec(&d2, nw, nc, pos + 1, total, forced, guard, path, n, bads);
-                path.pop();
-            }
-        }
-    }
-    let results = par_chunks(256, |chunk| {
-        let forced: Vec<bool> = (0..8).map(|i| (chunk >> i) & 1 != 0).collect();
-        let run = |guard: bool| {
-            let mut n = 0u64;
-            let mut bads: Vec<TB> = vec![];
-            let mut path = vec![];
-            rec(&Ps2Decoder::new(), 0, 0, 0, total_bits, &forced, guard, &mut path, &mut n, &mut bads);
-            (n, bads)
-        };
-        match catch_unwind(AssertUnwindSafe(|| run(false))) {
-            Ok(r) => (r, false),
-            Err(_) => (run(true), true),
-        }
-    });
+    let results = bit_tree(total_bits, false);
     let mut total = 0u64;
     let mut slow = 0;
     for ((n, bads), was_slow) in results {
